@@ -2,6 +2,10 @@ package main
 
 import (
 	"fmt"
+	"io/fs"
+	"syscall"
+
+	"github.com/avfs/avfs"
 
 	"verif/lib/fsx"
 )
@@ -200,6 +204,42 @@ func selfCheck() error {
 
 	if !familyOK(true, famWindows) || familyOK(true, famLinux) || familyOK(false, famWindows) || !familyOK(false, famLinux) || !familyOK(true, famCustom) {
 		return fmt.Errorf("selfcheck: familyOK")
+	}
+
+	// the class oracle on values of its own making (not the library's: a fault
+	// there is a violation, not a harness error): the class of an errno of this
+	// host, a value that lost its class, a class differing between the types,
+	// a difference stated by a branch of the call itself
+	if got := errClass(&fs.PathError{Op: "stat", Path: "x", Err: syscall.ENOENT}); got != "notexist" {
+		return fmt.Errorf("selfcheck: errClass(ENOENT) = %q", got)
+	}
+
+	if c, ok := wantClass(&fs.PathError{Err: avfs.WindowsError(3)}); !ok || c != "notexist" {
+		return fmt.Errorf("selfcheck: wantClass(WIN3) = %q, %v", c, ok)
+	}
+
+	if c, ok := wantClass(&fs.PathError{Err: avfs.LinuxError(syscall.ENOTDIR)}); !ok || c != "" {
+		return fmt.Errorf("selfcheck: wantClass(ENOTDIR) = %q, %v", c, ok)
+	}
+
+	mk := func(kind, class, want string) result {
+		return result{Res: fsx.Res{Kind: kind}, Class: class, Want: want, HasWant: true}
+	}
+
+	for _, c := range []struct {
+		call string
+		l, w result
+		want int
+	}{
+		{"Stat", mk("ENOENT", "notexist", "notexist"), mk("WIN3", "notexist", "notexist"), 0},
+		{"Stat", mk("ENOENT", "notexist", "notexist"), mk("WIN3", "", "notexist"), 2},
+		{"Stat", mk("ENOTDIR", "", ""), mk("WIN3", "notexist", "notexist"), 0},
+		{"Mkdir", mk("EEXIST", "exist", "exist"), mk("WIN5", "permission", "permission"), 1},
+		{"Rename", mk("EEXIST", "exist", "exist"), mk("WIN5", "permission", "permission"), 0},
+	} {
+		if got := classFindings(c.call, c.l, c.w); len(got) != c.want {
+			return fmt.Errorf("selfcheck: classFindings(%s,%s,%s) = %q", c.call, c.l.Kind, c.w.Kind, got)
+		}
 	}
 
 	if got := statVal("b f 0644 0:0 sz1 n2"); got != "b f sz1 n2" {
